@@ -86,6 +86,8 @@ M = [
  ("g-parse-single-last-wins", ["C05"], IT, '            if item.is_some() {\n                bail!(attr.span(), "#[{}] was specified twice", name)\n            }', ""),
  ("g-contains-in-type-negated", ["C03:DM-mentions-param"], SU, "        visitor.visit_type(ty);\n        visitor.result", "        visitor.visit_type(ty);\n        !visitor.result"),
  ("g-derive-ex-attrs-negated", ["C15:DM-arg-merge"], IT, "        if attr.path() == &parse_quote!(derive_ex) {", "        if attr.path() != &parse_quote!(derive_ex) {"),
+ ("g-param-flag-set-false", ["C03:DM-mentions-param"], SU, "                            self.result = true;", "                            self.result = false;"),
+ ("g-dotdot-sets-false", ["C04:DM-bound-parse"], BO, "Bound::Default(_) => self.default = true,", "Bound::Default(_) => self.default = false,"),
  # benign variants: every listed property must stay silent
  ("benign-rename-local", [], IT, "let use_bounds = e.push_bounds_to(&mut wcb);\n    let mut ctor_args = Vec::new();\n    let mut clone_from_exprs = Vec::new();", "let use_bounds = e.push_bounds_to(&mut wcb);\n    let mut ctor_args = Vec::new();\n    let mut clone_from_exprs = Vec::new();\n    let _unused_marker = 0;"),
 ]
